@@ -1,4 +1,4 @@
-CONSTANTS NR = 2  MaxR = 2  MaxC = 2  MaxOps = 3  Bnd = 8  MaxDim = 4  Seeded = FALSE
+CONSTANTS NR = 2  MaxR = 2  MaxC = 2  MaxOps = 2  Bnd = 8  MaxDim = 4  Seeded = FALSE
 CONSTANTS Vals <- ValsQ  Scal <- ScalQ
 SPECIFICATION Spec
 VIEW View
